@@ -68,3 +68,17 @@ Proof.
   intros Hv [H1 [H2 H3]]. exact (assembled_tensor_symmetric 4 blocks_O4 order4_ok (Nat.lt_0_succ 3) tables_O4_ok N tp Hv inp H1 H2 H3 zero y W t pi).
 Qed.
 Print Assumptions c01_output_perm_sym_O4.
+
+(** Regression: with the FIRST row entry as representative (the source before fix 1a30c68) the components
+    of the pointer graph are not permutation invariant -- order 4, translation group Z2 x Z2, tuple
+    [0;3;6;10] and its transposition (0 1) end in different components; with the row minimum they share
+    their pointer. *)
+From SymfcV Require Import Refute.
+Theorem c01_first_rep_splits_orbits :
+  valid_tp 4 tp_z2z2 = true /\
+  exists W, witness_writes RepFirst = Ok W /\ ~ connected (ptr_of W) witness_e1 witness_e2.
+Proof. exact first_rep_splits_orbits. Qed.
+Print Assumptions c01_first_rep_splits_orbits.
+
+Theorem c01_row_minimum_keeps_them_together : same_pointer (witness_writes RepRowMin) witness_e1 witness_e2 = true.
+Proof. exact rowmin_same_pointer. Qed.
